@@ -455,6 +455,8 @@ def countexact(run, fx):
     specs = {
         16: ('const unsigned short', [0, 0x41, 0xD7FF, 0xD800, 0xDBFF, 0xDC00, 0xDFFF, 0xE000]),
         32: ('const unsigned int', [0, 0x41, 0xD800, 0xDFFF, 0x10FFFF, 0x110000, 0xFFFFFFFF]),
+        # UTF-8 decoding does arithmetic on the bytes: each class representative is executed as the number it is (bounded, not a partition argument)
+        8: ('const unsigned char', [0, 0x41, 0x7F, 0x80, 0xBF, 0xC2, 0xDF, 0xE1, 0xEF, 0xF1, 0xF4, 0xF5, 0xFF]),
     }
 
     def parse(w, units):
@@ -464,6 +466,12 @@ def countexact(run, fx):
             u = units[i]
             if u == 0:
                 return cnt, None
+            if w == 8:
+                need = 0 if u < 0x80 else 1 if 0xC2 <= u <= 0xDF else 2 if 0xE1 <= u <= 0xEF else 3 if 0xF1 <= u <= 0xF3 else None
+                if need is None or i + need >= len(units) + (0 if need else 1) or any(not (0x80 <= x <= 0xBF) for x in units[i + 1:i + 1 + need]) or len(units[i + 1:i + 1 + need]) < need:
+                    return cnt, i
+                cnt, i = cnt + 1, i + 1 + need
+                continue
             if w == 32:
                 if u >= 0x110000:
                     return cnt, i
@@ -518,6 +526,12 @@ def countexact(run, fx):
                         cnt, bad = parse(w, list(units))
                         text_end = list(units).index(0) if 0 in units else n
                         trunc_tail = with_last and w == 16 and n > 0 and 0xD800 <= units[-1] <= 0xDBFF
+                        if w == 8 and with_last:
+                            for k_ in range(1, min(3, n) + 1):          # the buffer ends inside a multi-byte sequence: the truncated-tail clause, either answer
+                                ld = units[n - k_]
+                                need_ = 1 if 0xC0 <= ld <= 0xDF else 2 if 0xE0 <= ld <= 0xEF else 3 if ld >= 0xF0 else 0
+                                if need_ >= k_ and all(0x80 <= x <= 0xBF for x in units[n - k_ + 1:]):
+                                    trunc_tail = True
                         if bad is None and not trunc_tail:
                             if r != cnt or reported:
                                 prob = '%s: well-formed text of %d character(s), but the count is %r and *pError is %s' % (desc, cnt, r, 'set' if reported else 'NULL')
